@@ -9,6 +9,7 @@ suspension points of listener start-up are inputs of a case.
 """
 
 import asyncio
+import concurrent.futures
 import collections
 import errno
 import random
@@ -82,11 +83,39 @@ class SimLoop(asyncio.SelectorEventLoop):
     # executor accounting -------------------------------------------------
     exec_delay = 0.0    # virtual seconds an executor job appears to take (0: whatever the real thread needs, a few iterations)
 
+    exec_hook = None    # callable(func) -> None | ("delay", seconds) | ("raise", exception): per-job decision (fault injection
+                        # UNDER a real executor-based back end: the job is slow, or what it calls in the thread fails)
+
     def run_in_executor(self, executor, func, *args):
-        fut = super().run_in_executor(executor, func, *args)
-        self._exec_outstanding += 1
-        fut.add_done_callback(self._exec_done)
         delay = self.exec_delay
+        if self.exec_hook is not None:
+            verdict = self.exec_hook(func)
+            if verdict is not None and verdict[0] == "raise":
+                exc = verdict[1]
+
+                def func(*a, _exc=exc):
+                    raise _exc
+            elif verdict is not None and verdict[0] == "delay":
+                delay = verdict[1]
+        # a job counts as outstanding until its THREAD is through with it (not until somebody stops waiting for it: a cancelled
+        # wait leaves the thread writing, and virtual time must not run ahead of that real write)
+        self._check_closed()
+        if executor is None:
+            executor = self._default_executor
+            self._check_default_executor()
+            if executor is None:
+                executor = concurrent.futures.ThreadPoolExecutor(thread_name_prefix="asyncio")
+                self._default_executor = executor
+        cf = executor.submit(func, *args)
+        self._exec_outstanding += 1
+
+        def cf_done(f):     # runs in the pool's thread when the job is over (or in ours when it was cancelled in the queue)
+            try:
+                self.call_soon_threadsafe(self._exec_done, f)
+            except RuntimeError:
+                pass        # loop closed meanwhile
+        fut = asyncio.wrap_future(cf, loop=self)    # (first: the result is on its way to the loop before the job stops counting)
+        cf.add_done_callback(cf_done)
         if not delay:
             return fut
         # the job runs in its real thread; its result is handed over `delay` virtual seconds later, so that "the worker is
